@@ -71,7 +71,11 @@ Definition tt0_3d : arr T :=
 Definition ttsgn0_3d (grad : bool) : arr Z := if grad then full [NZ; NX; NY; 3] 0 else full [0; 0; 0; 0] 0.
 
 (* the state before the first sweep: (tt, ttsgn, vzero, nz, nx, ny); no dependence on nsweep *)
-Definition init3d (grad : bool) : arr T * arr Z * T * Z * Z * Z := (tt0_3d, ttsgn0_3d grad, vzero3, NZ, NX, NY).
+Definition init_state3 : Type := (arr T * arr Z * T * Z * Z * Z)%type.
+Definition st3_tt (st : init_state3) : arr T := fst (fst (fst (fst (fst st)))).
+Definition st3_ttsgn (st : init_state3) : arr Z := snd (fst (fst (fst (fst st)))).
+Definition st3_vzero (st : init_state3) : T := snd (fst (fst (fst st))).
+Definition init3d (grad : bool) : init_state3 := (tt0_3d, ttsgn0_3d grad, vzero3, NZ, NX, NY).
 
 (* one pass of the sweeping loop, on the state (tt, ttsgn) *)
 Definition pass3d (grad : bool) (st : arr T * arr Z) : arr T * arr Z :=
@@ -119,9 +123,8 @@ Qed.
 Theorem fteik3d_nsweep_iter nsweep grad :
   inside3d = true ->
   exists G, fteik3d slow dz dx dy zsrc xsrc ysrc nsweep grad =
-    Ok (fst (Nat.iter (Z.to_nat nsweep) (pass3d grad)
-               (fst (fst (fst (fst (fst (init3d grad))))), snd (fst (fst (fst (fst (init3d grad))))))),
-        G, snd (fst (fst (fst (init3d grad))))).
+    Ok (fst (Nat.iter (Z.to_nat nsweep) (pass3d grad) (st3_tt (init3d grad), st3_ttsgn (init3d grad))),
+        G, st3_vzero (init3d grad)).
 Proof. intros Hin. destruct (fteik3d_char nsweep grad) as [G E]. exists G. rewrite E, Hin. reflexivity. Qed.
 
 (* the traveltime component of a pass is a function of the traveltime component *)
@@ -160,7 +163,7 @@ Proof.
   intros Hz Hx Hy. unfold tt0_3d, corner3. cbv zeta. repeat apply okT_set.
   split; [|reflexivity]. apply wf_full. repeat constructor; lia.
 Qed.
-Lemma init3d_tt grad : fst (fst (fst (fst (fst (init3d grad))))) = tt0_3d.
+Lemma init3d_tt grad : st3_tt (init3d grad) = tt0_3d.
 Proof. reflexivity. Qed.
 
 (* degenerate model (a negative extent): the sweeps do nothing *)
